@@ -363,6 +363,7 @@ func overlaps(a, b string) bool {
 type mutexState struct {
 	locked  bool
 	readers int
+	writersWaiting int
 	vc      []int
 	// WaitGroup
 	count int
@@ -424,7 +425,15 @@ func (m *Machine) mutexLock(th *Thread, p *Ptr) {
 	}
 	s := m.syncState(p)
 	m.yield(th)
-	m.block(th, "mutex.Lock", func() bool { return !s.locked && s.readers == 0 })
+	free := func() bool { return !s.locked && s.readers == 0 }
+	if !free() {
+		// sync.RWMutex: a blocked Lock call excludes new readers from acquiring the lock
+		// (writer preference) - a goroutine that read-locks recursively while a writer
+		// waits deadlocks, exactly as the documentation of RWMutex warns
+		s.writersWaiting++
+		m.block(th, "mutex.Lock", free)
+		s.writersWaiting--
+	}
 	s.locked = true
 	m.acquireHB(th, s)
 }
@@ -452,7 +461,7 @@ func (m *Machine) mutexUnlock(th *Thread, p *Ptr) {
 func (m *Machine) rwRLock(th *Thread, p *Ptr) {
 	s := m.syncState(p)
 	m.yield(th)
-	m.block(th, "rwmutex.RLock", func() bool { return !s.locked })
+	m.block(th, "rwmutex.RLock", func() bool { return !s.locked && s.writersWaiting == 0 })
 	s.readers++
 	m.acquireHB(th, s)
 }
